@@ -77,7 +77,7 @@ def fmt_conc(a):
     if a["op"] == "init":
         g = a["arg"]
         return "init %d %d %s %d" % (g["n"], g["cap"], g["scen"], g["k"])
-    return "%s 0" % a["op"]
+    return "%s %s" % (a["op"], a["arg"])
 
 
 def conc_part(rep, tier):
@@ -88,7 +88,7 @@ def conc_part(rep, tier):
         grid = [(n, c, s, k) for n in (0, 1, 2, 3, 4) for c in (1, 2, 3) for s, k in
                 (("abort", 0), ("ends", 0), ("setsize", 0), ("setsize", 2), ("setsize", 4), ("none", 0))]
     exes = vlib.build("sched", ["drv_oq_conc"])
-    recs = ", ".join('[n |-> %d, cap |-> %d, scen |-> "%s", k |-> %d]' % g for g in grid)
+    recs = ", ".join('[n |-> %d, cap |-> %d, scen |-> "%s", k |-> %d, spur |-> 1]' % g for g in grid)
     mc = vlib.write_mc("MC_QueueConc_" + tier, "QueueConc", "MCConfigs == {%s}" % recs)
     cfg = write_cfg("QueueConc_%s.cfg" % tier, CONC_CFG % dict(
         spec="Spec", props="", edge="ACTION_CONSTRAINT EdgeLog\nCONSTRAINT InitLog"))
